@@ -57,6 +57,14 @@ ALPHABETS = {
     ],
 }  # fmt: skip
 
+# Ways of creating a configuration: Config.load(file, **kwargs) and, per the class documentation
+# ("create an instance of Config at the start of your program (probably using the load method)"),
+# direct construction Config(**data) / Config.model_validate(data). The direct routes get the complete
+# data (reference overlay of the same kind), so the expected effective values are those of the kind.
+ROUTES = ('load', 'construct', 'validate')
+DIRECT_KINDS = tuple(k for k in VALID + INVALID if k not in ('missing_file', 'bad_toml'))  # those fail reading the file
+ALPHABETS['routes'] = ALPHABETS['full'] + [f'{r}:{k}' for r in ('construct', 'validate') for k in DIRECT_KINDS]
+
 
 def package_data_dir() -> Path:
     spec = importlib.util.find_spec('AEIC')
@@ -149,9 +157,9 @@ def locate(raw, dirs):
     return None
 
 
-def expected_values(kind):
-    """Effective values of a valid load in the canonical flat form used for comparison, or None when the
-    reference semantics says that a named file cannot be found."""
+def effective_data(kind):
+    """defaults + file + keyword arguments of this load kind by the reference overlay (nested dict).
+    Also the input handed to the direct routes Config(**data) / Config.model_validate(data)."""
     with open(package_data_dir() / 'default_config.toml', 'rb') as fp:
         defaults = tomllib.load(fp)
     cfile, kw = load_args(kind)
@@ -160,7 +168,13 @@ def expected_values(kind):
         with open(cfile, 'rb') as fp:
             layers.append(tomllib.load(fp))
     layers.append(kw)
-    eff = ref_overlay(*layers)
+    return ref_overlay(*layers)
+
+
+def expected_values(kind):
+    """Effective values of a valid load in the canonical flat form used for comparison, or None when the
+    reference semantics says that a named file cannot be found."""
+    eff = effective_data(kind)
     dirs = search_path(eff.get('path'))
     out = {}
     for key in ('performance_model', 'engine_file'):
@@ -365,6 +379,7 @@ class ConfigDriver:
         if FILE_MISSING.exists():
             raise HarnessError(f'C18: {FILE_MISSING} must not exist')
         self.keys = list(dict.fromkeys(k for v in self.expected.values() for k in v))
+        self.data = {k: effective_data(k) for k in DIRECT_KINDS}
         if Path('data/C18_search').resolve() != SEARCH_DIR.resolve():
             raise HarnessError('C18: the working directory must be the harness directory (relative search path in file P)')
         if len({fingerprint_values(v) for v in self.expected.values()}) != len(VALID):
@@ -386,7 +401,7 @@ class ConfigDriver:
         """(new model, expected) with expected ('ok', values|None) | ('refused',) | ('any',)."""
         op, _, arg = ev.partition(':')
         cfg = m['cfg']
-        if op == 'load':
+        if op in ROUTES:
             if cfg is not None:
                 return {'cfg': cfg}, ('refused',)  # one is active: refused, the active one stays
             if arg in VALID:
@@ -432,6 +447,10 @@ class ConfigDriver:
             if op == 'load':
                 cfile, kw = load_args(arg)
                 obj = Config.load(**kw) if cfile is None else Config.load(cfile, **kw)
+                return ('ok', observed_values(obj, self.keys), obj)
+            if op in ('construct', 'validate'):
+                data = copy.deepcopy(self.data[arg])
+                obj = Config(**data) if op == 'construct' else Config.model_validate(data)
                 return ('ok', observed_values(obj, self.keys), obj)
             if op == 'reset':
                 return ('ok', Config.reset())
@@ -526,7 +545,7 @@ class ConfigDriver:
                 finding = None
                 if taint and st == 'U' and (
                     (op in ('get', 'read') and bad == 'accepted')
-                    or (op == 'load' and arg in VALID and bad == 'raised' and got[1] == 'RuntimeError'
+                    or (op in ROUTES and arg in VALID and bad == 'raised' and got[1] == 'RuntimeError'
                         and 'already been initialized' in got[2])
                 ):  # fmt: skip
                     finding = FINDING_PATH_FAILURE
@@ -544,11 +563,11 @@ class ConfigDriver:
                     )
                 )
                 break
-            if op == 'load' and exp[0] == 'ok':
+            if op in ROUTES and exp[0] == 'ok':
                 loaded = got[2]
             if op == 'reset':
                 loaded, taint = None, None
-            if op == 'load' and st == 'U' and arg in PATH_FAILURES and got[0] == 'exc' and got[1] == 'FileNotFoundError':
+            if op in ROUTES and st == 'U' and arg in PATH_FAILURES and got[0] == 'exc' and got[1] == 'FileNotFoundError':
                 taint = (ev, got[2])
             m = m2
         if not vio:
